@@ -597,15 +597,36 @@ func c08CompareAddr(c *Ctx) {
 				return true
 			}
 			atom, pol0 := condAtom(iff.Cond)
-			s := Render(atom)
 			trueIdx := 0
 			if !pol0 {
 				trueIdx = 1
 			}
-			switch s {
-			case "(" + a + ".IP == nil:net.IP)", "(" + b + ".IP == nil:net.IP)", "(" + a + ".IP == nil)", "(" + b + ".IP == nil)",
-				"(net.IP).Equal(" + a + ".IP, " + b + ".IP)", "(net.IP).Equal(" + b + ".IP, " + a + ".IP)":
-				return idx != trueIdx // delete the true edge
+			// the IP of one of the two asserted addresses
+			isIPOf := func(v ssa.Value) bool {
+				x, ok := isFieldLoadNamed(v, "IP")
+				if !ok {
+					return false
+				}
+				ex, ok := x.(*ssa.Extract)
+				if !ok || ex.Index != 0 {
+					return false
+				}
+				ta, ok := ex.Tuple.(*ssa.TypeAssert)
+				return ok && (ta.X == ssa.Value(fn.Params[0]) || ta.X == ssa.Value(fn.Params[1]))
+			}
+			switch x := atom.(type) {
+			case *ssa.BinOp:
+				if (x.Op == token.EQL || x.Op == token.NEQ) && ((isIPOf(x.X) && IsNilConst(x.Y)) || (isIPOf(x.Y) && IsNilConst(x.X))) {
+					nilIdx := trueIdx // edge on which the IP is nil
+					if x.Op == token.NEQ {
+						nilIdx = 1 - trueIdx
+					}
+					return idx != nilIdx
+				}
+			case *ssa.Call:
+				if f := x.Call.StaticCallee(); f != nil && f.Name() == "Equal" && len(x.Call.Args) == 2 && isIPOf(x.Call.Args[0]) && isIPOf(x.Call.Args[1]) {
+					return idx != trueIdx // delete the edge on which the IPs are equal
+				}
 			}
 			return true
 		}
